@@ -96,3 +96,11 @@ Proof. exact TruncProofs.eof_iff_empty. Qed.
 Theorem equals_spec : forall o a b, wf_tcoll a -> wf_tcoll b ->
   (tc_equals o a b = true <-> equals_meaning o a b).
 Proof. exact EqualsProofs.equals_spec. Qed.
+
+(* ... and a stream on which complete objects are followed by a proper non-empty prefix of a
+   further object (cut at ANY byte: magic, header, descriptors, keys, arrays) ends with a format
+   error, never with the clean end-of-stream signal *)
+Theorem stream_truncated_tail : forall (stores : list (list item)) its n,
+  Forall enc_ok stores -> items_ok its -> (0 < n < length (kas_write its))%nat ->
+  read_all_stores (S (S (length stores))) (concat (map kas_encode stores) ++ firstn n (kas_write its)) = Err E_FORMAT.
+Proof. exact TruncProofs.stream_truncated_tail. Qed.
